@@ -20,8 +20,11 @@ import subprocess
 import sys
 
 HERE = os.path.dirname(os.path.abspath(__file__))
-COQ = os.path.join(HERE, "coq")
-OUT = os.path.join(HERE, "validate")
+VERIF = os.path.normpath(os.path.join(HERE, "..", ".."))
+SCRATCH = os.path.join(VERIF, "_build", "textlayer", "json")
+os.makedirs(SCRATCH, exist_ok=True)
+COQ = os.path.join(VERIF, "coq")
+OUT = SCRATCH
 rng = random.Random(20261001)
 
 NASTY = [0, 1, 7, 8, 9, 10, 11, 12, 13, 0x1E, 0x1F, 0x20, 0x21, 0x22, 0x23, 0x2F, 0x5B, 0x5C, 0x5D,
